@@ -85,13 +85,17 @@ def main():
         if keep and ok:
             d = os.path.join('/verif/seeded', keep)
             os.makedirs(d, exist_ok=True)
-            shutil.copy(patch, os.path.join(d, 'patch.diff'))
-            shutil.copy(demo, os.path.join(d, 'demo_test.go'))
-            if os.path.exists(os.path.join(src, 'notes.md')):
-                shutil.copy(os.path.join(src, 'notes.md'), os.path.join(d, 'notes.md'))
+            if os.path.abspath(d) != src:
+                shutil.copy(patch, os.path.join(d, 'patch.diff'))
+                shutil.copy(demo, os.path.join(d, 'demo_test.go'))
+                if os.path.exists(os.path.join(src, 'notes.md')):
+                    shutil.copy(os.path.join(src, 'notes.md'), os.path.join(d, 'notes.md'))
+            prev = {}
+            if os.path.exists(os.path.join(d, 'meta.json')):
+                prev = json.load(open(os.path.join(d, 'meta.json')))
             meta = {
                 'id': keep, 'property': prop, 'repo_head': head,
-                'needs': '', 'what': '',
+                'needs': prev.get('needs', ''), 'what': prev.get('what', ''),
                 'confirmed_by_me': {
                     'cmds': ['git apply patch.diff', 'go build ./... && go vet .', ' '.join(demo_cmd) + '  (copy demo_test.go into the package first)', 'go test -vet=off -count=1 .'],
                     'demo_on_pristine_rc': res['demo_pristine']['rc'], 'demo_with_change_rc': res['demo_mutant']['rc'],
